@@ -48,7 +48,7 @@ class Endpoint:
 
 
 def build_frame(src: Endpoint, dst: Endpoint, proto: str, payload: bytes, seq=0, ack=0, flags=0x18,
-                transport_sum=None, ip_id=0, ttl=64, udp_zero_checksum=False, tcp_options=b""):
+                transport_sum=None, ip_id=0, ttl=64, udp_zero_checksum=False, tcp_options=b"", v6_ext=False):
     """Returns a complete Ethernet frame.  transport_sum overrides the (correct)
     transport checksum when given."""
     v6 = len(src.ip) == 16
@@ -73,7 +73,12 @@ def build_frame(src: Endpoint, dst: Endpoint, proto: str, payload: bytes, seq=0,
         c = transport_sum
     seg = seg[:off] + struct.pack("!H", c) + seg[off + 2:]
     if v6:
-        ip = struct.pack("!IHBB", 6 << 28, len(seg), pnum, ttl) + src.ip + dst.ip
+        if v6_ext:
+            # hop-by-hop options (PadN) then destination options (PadN): RFC 8200 section 4; not part of the pseudo header
+            ext = bytes([60, 0, 1, 4, 0, 0, 0, 0]) + bytes([pnum, 0, 1, 4, 0, 0, 0, 0])
+            ip = struct.pack("!IHBB", 6 << 28, len(ext) + len(seg), 0, ttl) + src.ip + dst.ip + ext
+        else:
+            ip = struct.pack("!IHBB", 6 << 28, len(seg), pnum, ttl) + src.ip + dst.ip
         etype = 0x86DD
     else:
         ip = struct.pack("!BBHHHBBH", 0x45, 0, 20 + len(seg), ip_id & 0xFFFF, 0x4000, ttl, pnum, 0) + src.ip + dst.ip
@@ -137,6 +142,11 @@ def parse_frame(raw: bytes, strict=True) -> Frame:
             raise FrameError(f"ipv6 payload length {plen} != frame bytes {len(ip) - 40}")
         f.src_ip, f.dst_ip = ip[8:24], ip[24:40]
         seg = ip[40:40 + plen]
+        while pnum in (0, 43, 60):        # hop-by-hop, routing, destination options: (next header, length in 8-byte units - 1)
+            if len(seg) < 8:
+                raise FrameError("short ipv6 extension header")
+            pnum, hl = seg[0], (seg[1] + 1) * 8
+            seg = seg[hl:]
     else:
         raise FrameError("ethertype %04x" % etype)
     if pnum == 6:
